@@ -105,7 +105,9 @@ def rename(node, m):
 
 
 # keyword names that are also properties every object inherits from Obj / BaseObj: a keyword is a variable of the call, never a property lookup
-PROPLIKE = [("max", "min"), ("keys", "first"), ("p", "S"), ("new", "bear"), ("len", "A"), ("which", "proto"), ("map", "index"), ("values", "sum")]
+PROPLIKE = [("max", "min"), ("keys", "first"), ("p", "S"), ("new", "bear"), ("len", "A"), ("which", "proto"), ("map", "index"), ("values", "sum"),
+            # the names written like literals are variables of the global scope: a parameter or keyword of that name shadows them like any other
+            ("true", "false"), ("nil", "true"), ("false", "nil")]
 
 
 def c03_proplike_names():
